@@ -1,5 +1,6 @@
 CONSTANTS
   GlyphCounts = {1, 2, 30, 255, 256, 257}
+  Focus = "random"
 INIT Init
 NEXT Next
 INVARIANT Emit
